@@ -4,6 +4,7 @@ package verifsim
 
 import (
 	"fmt"
+	"net/url"
 	"reflect"
 	"strings"
 	"time"
@@ -80,10 +81,6 @@ func scenC10(r *Run) {
 		off   uint
 		conns int
 	}
-	var got []RefItem // delivered so far
-	var cont pub.Container
-	var off uint
-	ended := false
 	var first any
 	task := r.Spawn("open", func() { first = pub.New(l.RootURL, nil) })
 	r.Drive(func() bool { return task.Done }, hugeHorizon, 20000)
@@ -96,126 +93,164 @@ func scenC10(r *Run) {
 		r.Violate("C10", "scenario", "collection-not-recognised", fmt.Sprintf("pub.New(%s) returned %T for layout %s", l.RootURL, first, l.Describe()))
 		return
 	}
-	cont = coll
-	emptyStreak := 0
-	for i := 0; i < len(sizes)+3; i++ {
-		n := uint(3)
-		if i < len(sizes) {
-			n = sizes[i]
+	// walk pages through the collection from its root object and compares what is delivered with
+	// the reference; false = stop the run (a violation was recorded)
+	walk := func(phase string, sizes []uint, ref []RefItem, finite bool) bool {
+		var got []RefItem // delivered so far
+		var cont pub.Container = coll
+		var off uint
+		ended := false
+		emptyStreak := 0
+		for i := 0; i < len(sizes)+3; i++ {
+			n := uint(3)
+			if i < len(sizes) {
+				n = sizes[i]
+			}
+			if isNilContainer(cont) {
+				ended = true
+				break
+			}
+			var out outcome
+			c, o := cont, off
+			before := len(r.Net.Conns)
+			task := r.Spawn(fmt.Sprintf("%sharvest%d", phase, i), func() {
+				out.items, out.cont, out.off = c.Harvest(n, o)
+			})
+			end := r.Drive(func() bool { return task.Done }, hugeHorizon, 20000)
+			if !task.Done {
+				r.Violate("C10", "M-live", "harvest-did-not-return", fmt.Sprintf("request #%d (n=%d) on layout %s did not return (%v); delivered so far %d items", i, n, l.Describe(), end, len(got)))
+				return false
+			}
+			for _, v := range r.S.Violations() {
+				if v.Prop == "C10" {
+					return false // a panic inside the harvest was already recorded
+				}
+			}
+			pages := 0
+			for _, cr := range r.Net.Conns[before:] {
+				if strings.HasPrefix(cr.Target, "/c/") || strings.HasPrefix(cr.Target, "/c?") {
+					pages++
+				}
+			}
+			if pages > int(4*(n+1)+2) {
+				r.Violate("C10", "bound", "too-many-pages-per-request", fmt.Sprintf("request #%d for %d items fetched %d pages on layout %s", i, n, pages, l.Describe()))
+			}
+			if uint(len(out.items)) > n+1 {
+				r.Violate("C10", "sequence", "more-items-than-requested", fmt.Sprintf("request #%d asked for %d items and got %d", i, n, len(out.items)))
+			}
+			for _, it := range out.items {
+				tok, isErr := itemToken(it)
+				got = append(got, RefItem{Token: tok, Err: isErr})
+			}
+			if len(out.items) == 0 && n > 0 {
+				emptyStreak++
+			} else {
+				emptyStreak = 0
+			}
+			cont, off = out.cont, out.off
+			if isNilContainer(cont) && cont != nil {
+				r.Violate("C10", "sequence", "typed-nil-continuation", "the continuation is a non-nil interface holding a nil pointer; a caller that checks != nil will call it")
+				return false
+			}
+			if crossed := len(got) > len(l.RootItems) && len(l.RootItems) > 0; crossed {
+				r.S.Probe("harvest_crossed_page_boundary")
+			}
+			if emptyStreak >= 3 && !isNilContainer(cont) {
+				r.Violate("C10", "sequence", "no-progress", fmt.Sprintf("three requests in a row delivered nothing yet the continuation is not empty; layout %s delivered %d of %d", l.Describe(), len(got), len(ref)))
+				return false
+			}
 		}
 		if isNilContainer(cont) {
 			ended = true
-			break
 		}
-		var out outcome
-		c, o := cont, off
-		before := len(r.Net.Conns)
-		task := r.Spawn(fmt.Sprintf("harvest%d", i), func() {
-			out.items, out.cont, out.off = c.Harvest(n, o)
-		})
-		end := r.Drive(func() bool { return task.Done }, hugeHorizon, 20000)
-		if !task.Done {
-			r.Violate("C10", "M-live", "harvest-did-not-return", fmt.Sprintf("request #%d (n=%d) on layout %s did not return (%v); delivered so far %d items", i, n, l.Describe(), end, len(got)))
-			return
-		}
-		for _, v := range r.S.Violations() {
-			if v.Prop == "C10" {
-				return // a panic inside the harvest was already recorded
-			}
-		}
-		pages := 0
-		for _, cr := range r.Net.Conns[before:] {
-			if strings.HasPrefix(cr.Target, "/c/") || strings.HasPrefix(cr.Target, "/c?") {
-				pages++
-			}
-		}
-		if pages > int(4*(n+1)+2) {
-			r.Violate("C10", "bound", "too-many-pages-per-request", fmt.Sprintf("request #%d for %d items fetched %d pages on layout %s", i, n, pages, l.Describe()))
-		}
-		if uint(len(out.items)) > n+1 {
-			r.Violate("C10", "sequence", "more-items-than-requested", fmt.Sprintf("request #%d asked for %d items and got %d", i, n, len(out.items)))
-		}
-		for _, it := range out.items {
-			tok, isErr := itemToken(it)
-			got = append(got, RefItem{Token: tok, Err: isErr})
-		}
-		if len(out.items) == 0 && n > 0 {
-			emptyStreak++
-		} else {
-			emptyStreak = 0
-		}
-		cont, off = out.cont, out.off
-		if isNilContainer(cont) && cont != nil {
-			r.Violate("C10", "sequence", "typed-nil-continuation", "the continuation is a non-nil interface holding a nil pointer; a caller that checks != nil will call it")
-			return
-		}
-		if crossed := len(got) > len(l.RootItems) && len(l.RootItems) > 0; crossed {
-			r.S.Probe("harvest_crossed_page_boundary")
-		}
-		if emptyStreak >= 3 && !isNilContainer(cont) {
-			r.Violate("C10", "sequence", "no-progress", fmt.Sprintf("three requests in a row delivered nothing yet the continuation is not empty; layout %s delivered %d of %d", l.Describe(), len(got), len(ref)))
-			return
-		}
-	}
-	if isNilContainer(cont) {
-		ended = true
-	}
-	// compare with the reference
-	show := func(v []RefItem) string {
-		var s []string
-		for _, x := range v {
-			if x.Err {
-				s = append(s, "ERR")
-			} else {
-				s = append(s, x.Token)
-			}
-		}
-		return strings.Join(s, " ")
-	}
-	for i, g := range got {
-		if i >= len(ref) && !finite {
-			break // an endless chain: the reference was only unrolled this far
-		}
-		if i >= len(ref) {
-			r.Violate("C10", "sequence", "items-beyond-the-end", fmt.Sprintf("delivered %d items, the collection has %d; layout %s; got [%s] want [%s]", len(got), len(ref), l.Describe(), show(got), show(ref)))
-			return
-		}
-		w := ref[i]
-		if g.Err != w.Err || (!g.Err && g.Token != w.Token) {
-			kind := "wrong-item"
-			switch {
-			case g.Err && !w.Err:
-				kind = "delivery-cut-short-by-error-item"
-			case !g.Err && w.Err:
-				kind = "item-instead-of-error"
-			default:
-				for j := 0; j < i; j++ {
-					if got[j].Token == g.Token {
-						kind = "duplicate"
-					}
+		// compare with the reference
+		show := func(v []RefItem) string {
+			var s []string
+			for _, x := range v {
+				if x.Err {
+					s = append(s, "ERR")
+				} else {
+					s = append(s, x.Token)
 				}
-				if kind == "wrong-item" {
-					for j := i + 1; j < len(ref); j++ {
-						if ref[j].Token == g.Token {
-							kind = "gap-or-reordering"
+			}
+			return strings.Join(s, " ")
+		}
+		for i, g := range got {
+			if i >= len(ref) && !finite {
+				break // an endless chain: the reference was only unrolled this far
+			}
+			if i >= len(ref) {
+				r.Violate("C10", "sequence", "items-beyond-the-end", fmt.Sprintf("delivered %d items, the collection has %d; layout %s; got [%s] want [%s]", len(got), len(ref), l.Describe(), show(got), show(ref)))
+				return false
+			}
+			w := ref[i]
+			if g.Err != w.Err || (!g.Err && g.Token != w.Token) {
+				kind := "wrong-item"
+				switch {
+				case g.Err && !w.Err:
+					kind = "delivery-cut-short-by-error-item"
+				case !g.Err && w.Err:
+					kind = "item-instead-of-error"
+				default:
+					for j := 0; j < i; j++ {
+						if got[j].Token == g.Token {
+							kind = "duplicate"
+						}
+					}
+					if kind == "wrong-item" {
+						for j := i + 1; j < len(ref); j++ {
+							if ref[j].Token == g.Token {
+								kind = "gap-or-reordering"
+							}
 						}
 					}
 				}
+				r.Violate("C10", "sequence", kind, fmt.Sprintf("position %d: got %s, want %s; layout %s; sizes %v; got [%s] want [%s]", i, show(got[i:i+1]), show(ref[i:i+1]), l.Describe(), sizes, show(got), show(ref)))
+				return false
 			}
-			r.Violate("C10", "sequence", kind, fmt.Sprintf("position %d: got %s, want %s; layout %s; sizes %v; got [%s] want [%s]", i, show(got[i:i+1]), show(ref[i:i+1]), l.Describe(), sizes, show(got), show(ref)))
-			return
 		}
+		if ended && finite && len(got) < len(ref) {
+			r.Violate("C10", "sequence", "ended-early", fmt.Sprintf("continuation became empty after %d of %d items; layout %s; sizes %v; got [%s] want [%s]", len(got), len(ref), l.Describe(), sizes, show(got), show(ref)))
+		}
+		if ended {
+			r.S.Probe("collection_exhausted")
+		}
+		if len(ref) > 0 && ref[len(ref)-1].Err && len(got) == len(ref) {
+			r.S.Probe("chain_cut_delivered_as_error_item")
+		}
+		if !finite {
+			r.S.Probe("infinite_chain")
+		}
+		return true
 	}
-	if ended && finite && len(got) < len(ref) {
-		r.Violate("C10", "sequence", "ended-early", fmt.Sprintf("continuation became empty after %d of %d items; layout %s; sizes %v; got [%s] want [%s]", len(got), len(ref), l.Describe(), sizes, show(got), show(ref)))
+	if !walk("", sizes, ref, finite) {
+		return
 	}
-	if ended {
-		r.S.Probe("collection_exhausted")
-	}
-	if len(ref) > 0 && ref[len(ref)-1].Err && len(got) == len(ref) {
-		r.S.Probe("chain_cut_delivered_as_error_item")
-	}
-	if !finite {
-		r.S.Probe("infinite_chain")
+	// Walking again from the same root object, after every transient fault has gone, must deliver
+	// the collection as it is now: nothing about an earlier walk (a position, a failure) may stick
+	// to the objects it went through.
+	if t.Chance(1, 2) {
+		healed := false
+		for _, p := range l.Pages {
+			switch p.Broken {
+			case "reset", "stall", "cut", "garbage":
+				pu, _ := url.Parse(p.URL)
+				delete(r.Net.TargetFault, pu.Hostname()+"|"+pu.RequestURI())
+				p.Broken = ""
+				healed = true
+			}
+		}
+		ref2, finite2 := l.Reference(80)
+		sizes2 := make([]uint, t.Range(1, 10))
+		for i := range sizes2 {
+			sizes2[i] = uint(t.Weighted(1, 2, 3, 2, 2, 1, 1, 1, 1, 3))
+		}
+		r.Describe("second_walk_sizes", fmt.Sprint(sizes2))
+		if healed {
+			r.S.Probe("c10_second_walk_after_transient_fault_healed")
+		} else {
+			r.S.Probe("c10_second_walk")
+		}
+		walk("again-", sizes2, ref2, finite2)
 	}
 }
